@@ -761,7 +761,7 @@ theorem gov_sview (s : State) (c : ParamChange) : sview ((gov s c).getD s) = svi
   | some s' =>
     simp only [Option.getD]
     unfold gov at hg
-    cases c <;> simp only [] at hg <;> (try split at hg) <;> (try split at hg) <;>
+    cases c <;> simp only [] at hg <;> (try split at hg) <;>
       first
         | (simp only [Option.some.injEq] at hg; rw [← hg]; rfl)
         | (simp only [reduceCtorEq] at hg)
@@ -799,14 +799,325 @@ theorem genesis_sview (g : Genesis) : sview g.state = sview g.base := by
 
 theorem base_sessInv (g : Genesis) : SessInv g.base := by
   refine ⟨?_, ?_, ?_, ?_, ?_, ?_, ?_⟩
-  · intro i x h; simp [Genesis.base, Tbl.get] at h
-  · intro t i; simp [Genesis.base, Tbl.has, Tbl.get]
-  · intro t i; simp [Genesis.base, Tbl.has, Tbl.get]
-  · intro t i; simp [Genesis.base, Tbl.has, Tbl.get]
-  · intro t i; simp [Genesis.base, Tbl.has, Tbl.get]
-  · intro u a i; simp [Genesis.base, Tbl.has, Tbl.get]
+  · intro i x h; simp [Genesis.base] at h
+  · intro t i; simp [Genesis.base, Tbl.has]
+  · intro t i; simp [Genesis.base, Tbl.has]
+  · intro t i; simp [Genesis.base, Tbl.has]
+  · intro t i; simp [Genesis.base, Tbl.has]
+  · intro u a i; simp [Genesis.base, Tbl.has]
   · exact ⟨Tbl.nodup_nil, Tbl.nodup_nil, Tbl.nodup_nil, Tbl.nodup_nil, Tbl.nodup_nil, Tbl.nodup_nil⟩
 
 theorem genesis_sessInv (g : Genesis) : SessInv g.state := SessInv.of_view (genesis_sview g) (base_sessInv g)
+
+/-! ### the statements about `SessIdx` alone (`CountInv` of the pre-state where ids matter) -/
+
+theorem provRegister_sessIdx {s s' : State} {frm : Addr} {n i w d : Bytes} (h : provRegister s frm n i w d = .ok s')
+    (hi : SessIdx s) : SessIdx s' := SessIdx.of_view (provRegister_sview h) hi
+
+theorem provUpdate_sessIdx {s s' : State} {frm : Addr} {n i w d : Bytes} {st : Status} (h : provUpdate s frm n i w d st = .ok s')
+    (hi : SessIdx s) : SessIdx s' := SessIdx.of_view (provUpdate_sview h) hi
+
+theorem nodeRegister_sessIdx {s s' : State} {frm : Addr} {gb hr : Coins} {url : Bytes} (h : nodeRegister s frm gb hr url = .ok s')
+    (hi : SessIdx s) : SessIdx s' := SessIdx.of_view (nodeRegister_sview h) hi
+
+theorem nodeUpdate_sessIdx {s s' : State} {frm : Addr} {gb hr : Option Coins} {url : Bytes} (h : nodeUpdate s frm gb hr url = .ok s')
+    (hi : SessIdx s) : SessIdx s' := SessIdx.of_view (nodeUpdate_sview h) hi
+
+theorem nodeStatus_sessIdx {s s' : State} {frm : Addr} {st : Status} (h : nodeStatus s frm st = .ok s')
+    (hi : SessIdx s) : SessIdx s' := SessIdx.of_view (nodeStatus_sview h) hi
+
+theorem nodeSubscribe_sessIdx {s s' : State} {frm node : Addr} {gb hr : Int} {denom : Denom} (h : nodeSubscribe s frm node gb hr denom = .ok s')
+    (hi : SessIdx s) : SessIdx s' := SessIdx.of_view (nodeSubscribe_sview h) hi
+
+theorem planCreate_sessIdx {s s' : State} {frm : Addr} {dur : Dur} {gb : Int} {prices : Coins} (h : planCreate s frm dur gb prices = .ok s')
+    (hi : SessIdx s) : SessIdx s' := SessIdx.of_view (planCreate_sview h) hi
+
+theorem planStatus_sessIdx {s s' : State} {frm : Addr} {id : Nat} {st : Status} (h : planStatus s frm id st = .ok s')
+    (hi : SessIdx s) : SessIdx s' := SessIdx.of_view (planStatus_sview h) hi
+
+theorem planLink_sessIdx {s s' : State} {frm : Addr} {id : Nat} {node : Addr} (h : planLink s frm id node = .ok s')
+    (hi : SessIdx s) : SessIdx s' := SessIdx.of_view (planLink_sview h) hi
+
+theorem planUnlink_sessIdx {s s' : State} {frm : Addr} {id : Nat} {node : Addr} (h : planUnlink s frm id node = .ok s')
+    (hi : SessIdx s) : SessIdx s' := SessIdx.of_view (planUnlink_sview h) hi
+
+theorem planSubscribe_sessIdx {s s' : State} {frm : Addr} {id : Nat} {denom : Denom} (h : planSubscribe s frm id denom = .ok s')
+    (hi : SessIdx s) : SessIdx s' := SessIdx.of_view (planSubscribe_sview h) hi
+
+theorem subAllocate_sessIdx {s s' : State} {frm toA : Addr} {id : Nat} {bytes : Int} (h : subAllocate s frm id toA bytes = .ok s')
+    (hi : SessIdx s) : SessIdx s' := SessIdx.of_view (subAllocate_sview h) hi
+
+theorem swap_sessIdx {s s' : State} {frm recv : Addr} {hash : Bytes} {amt : Int} (h : swap s frm hash recv amt = .ok s')
+    (hi : SessIdx s) : SessIdx s' := SessIdx.of_view (swap_sview h) hi
+
+theorem detachPayout_sessIdx {s s' : State} {sub : Sub} {b : Bool} (h : detachPayout s sub b = .ok s')
+    (hi : SessIdx s) : SessIdx s' := SessIdx.of_view (detachPayout_sview h) hi
+
+theorem payoutStep_sessIdx {s s' : State} {k : Time × Nat} (h : payoutStep s k = .ok s')
+    (hi : SessIdx s) : SessIdx s' := SessIdx.of_view (payoutStep_sview h) hi
+
+theorem nodeSweep_sessIdx {s s' : State}  (h : nodeSweep s = .ok s')
+    (hi : SessIdx s) : SessIdx s' := SessIdx.of_view (nodeSweep_sview h) hi
+
+theorem nodeExpireStep_sessIdx {s s' : State} {k : Time × Addr} (h : nodeExpireStep s k = .ok s')
+    (hi : SessIdx s) : SessIdx s' := SessIdx.of_view (nodeExpireStep_sview h) hi
+
+theorem nodeExpire_sessIdx {s s' : State}  (h : nodeExpire s = .ok s')
+    (hi : SessIdx s) : SessIdx s' := SessIdx.of_view (nodeExpire_sview h) hi
+
+theorem nodeEndBlock_sessIdx {s s' : State}  (h : nodeEndBlock s = .ok s')
+    (hi : SessIdx s) : SessIdx s' := SessIdx.of_view (nodeEndBlock_sview h) hi
+
+theorem settleSession_sessIdx {s s' : State} {x : Session} {acc node : Addr} {dep : Coin} {gb b a : Int} (h : settleSession s x acc node dep gb b a = .ok s')
+    (hi : SessIdx s) : SessIdx s' := SessIdx.of_view (settleSession_sview h) hi
+
+theorem sessionInactiveHook_sessIdx {s s' : State} {id : Nat} {acc node : Addr} {bytes : Int} (h : sessionInactiveHook s id acc node bytes = .ok s')
+    (hi : SessIdx s) : SessIdx s' := SessIdx.of_view (sessionInactiveHook_sview h) hi
+
+theorem refundSub_sessIdx {s s' : State} {item : Sub} (h : refundSub s item = .ok s')
+    (hi : SessIdx s) : SessIdx s' := SessIdx.of_view (refundSub_sview h) hi
+
+theorem removePayout_sessIdx {s s' : State} {item : Sub} (h : removePayout s item = .ok s')
+    (hi : SessIdx s) : SessIdx s' := SessIdx.of_view (removePayout_sview h) hi
+
+theorem sessStart_sessIdx {s s' : State} {frm : TextAddr} {id : Nat} {node : Addr} (h : sessStart s frm id node = .ok s')
+    (hc : CountInv s) (hi : SessIdx s) : SessIdx s' := (sessStart_sessInv h ⟨hc.sessKeyed, hi⟩).2
+
+theorem sessUpdate_sessIdx {s s' : State} {frm : Addr} {id : Nat} {up down dur : Int} {sig : SigSpec} (h : sessUpdate s frm id up down dur sig = .ok s')
+    (hc : CountInv s) (hi : SessIdx s) : SessIdx s' := (sessUpdate_sessInv h ⟨hc.sessKeyed, hi⟩).2
+
+theorem sessEnd_sessIdx {s s' : State} {frm : Addr} {id : Nat} (h : sessEnd s frm id = .ok s')
+    (hc : CountInv s) (hi : SessIdx s) : SessIdx s' := (sessEnd_sessInv h ⟨hc.sessKeyed, hi⟩).2
+
+theorem subCancel_sessIdx {s s' : State} {frm : Addr} {id : Nat} (h : subCancel s frm id = .ok s')
+    (hc : CountInv s) (hi : SessIdx s) : SessIdx s' := (subCancel_sessInv h ⟨hc.sessKeyed, hi⟩).2
+
+theorem subscriptionInactivePendingHook_sessIdx {s s' : State} {id : Nat} (h : subscriptionInactivePendingHook s id = .ok s')
+    (hc : CountInv s) (hi : SessIdx s) : SessIdx s' := (subscriptionInactivePendingHook_sessInv h ⟨hc.sessKeyed, hi⟩).2
+
+theorem sessionStep_sessIdx {s s' : State} {k : Time × Nat} (h : sessionStep s k = .ok s')
+    (hc : CountInv s) (hi : SessIdx s) : SessIdx s' := (sessionStep_sessInv h ⟨hc.sessKeyed, hi⟩).2
+
+theorem sessionEndBlock_sessIdx {s s' : State}  (h : sessionEndBlock s = .ok s')
+    (hc : CountInv s) (hi : SessIdx s) : SessIdx s' := (sessionEndBlock_sessInv h ⟨hc.sessKeyed, hi⟩).2
+
+theorem subscriptionStep_sessIdx {s s' : State} {d : Dur} {k : Time × Nat} (h : subscriptionStep d s k = .ok s')
+    (hc : CountInv s) (hi : SessIdx s) : SessIdx s' := (subscriptionStep_sessInv h ⟨hc.sessKeyed, hi⟩).2
+
+theorem subscriptionEndBlock_sessIdx {s s' : State}  (h : subscriptionEndBlock s = .ok s')
+    (hc : CountInv s) (hi : SessIdx s) : SessIdx s' := (subscriptionEndBlock_sessInv h ⟨hc.sessKeyed, hi⟩).2
+
+/-- State-level forms of the three primitives. -/
+theorem insertSession_sessIdx {s : State} {x : Session} (hid : x.id = s.sessCount.getD 0 + 1)
+    (hc : CountInv s) (hi : SessIdx s) : SessIdx (insertSession s x) := (insertSession_sessInv hid ⟨hc.sessKeyed, hi⟩).2
+
+theorem sessionToPending_sessIdx {s : State} {i : Nat} {x : Session} (hx : s.sessions.get i = some x)
+    (hc : CountInv s) (hi : SessIdx s) : SessIdx (sessionToPending s x) := by
+  have hid := (hc.sessions i x hx).1
+  subst hid
+  exact (sessionToPending_sessInv hx ⟨hc.sessKeyed, hi⟩).2
+
+theorem removeSession_sessIdx {s : State} {i : Nat} {x : Session} (hx : s.sessions.get i = some x)
+    (hc : CountInv s) (hi : SessIdx s) :
+    SessIdx (removeSession { s with sessQ := s.sessQ.erase (x.inactiveAt, x.id) } x) := by
+  have hid := (hc.sessions i x hx).1
+  subst hid
+  exact (removeSession_sessInv hx ⟨hc.sessKeyed, hi⟩).2
+
+theorem handle_sessIdx {s s' : State} {m : Msg} (h : m.handle s = .ok s') (hc : CountInv s) (hi : SessIdx s) :
+    SessIdx s' := (handle_sessInv h ⟨hc.sessKeyed, hi⟩).2
+
+theorem deliver_sessIdx (s : State) (m : Msg) (hc : CountInv s) (hi : SessIdx s) : SessIdx (deliver s m).1 :=
+  (deliver_sessInv s m ⟨hc.sessKeyed, hi⟩).2
+
+theorem beginBlock_sessIdx {s s' : State} {t : Time} (h : beginBlock s t = .ok s') (hi : SessIdx s) : SessIdx s' :=
+  SessIdx.of_view (beginBlock_sview h) hi
+
+theorem endBlock_sessIdx {s s' : State} (h : endBlock s = .ok s') (hc : CountInv s) (hi : SessIdx s) : SessIdx s' :=
+  (endBlock_sessInv h ⟨hc.sessKeyed, hi⟩).2
+
+theorem gov_sessIdx (s : State) (c : ParamChange) (hi : SessIdx s) : SessIdx ((gov s c).getD s) :=
+  SessIdx.of_view (gov_sview s c) hi
+
+/-- **One operation of a history preserves `SessIdx`.**  No side condition on the operation; of
+`CountInv s` only `sessions` (stored id = key ≤ `sessCount`) is used, and only for the pre-state. -/
+theorem step_sessIdx {s s' : State} {op : Op} (h : step s op = some s') (hc : CountInv s) (hi : SessIdx s) :
+    SessIdx s' := (step_sessInv h ⟨hc.sessKeyed, hi⟩).2
+
+theorem genesis_sessIdx (g : Genesis) : SessIdx g.state := (genesis_sessInv g).2
+
+/-- Whole histories, without any reference to `CountInv` preservation: `SessKeyed ∧ SessIdx` is
+inductive on its own. -/
+theorem sessInv_all_histories (ops : List Op) (s : State) (hi : SessInv s) : ∀ s' ∈ runTrace s ops, SessInv s' := by
+  induction ops generalizing s with
+  | nil => intro s' h; simp [runTrace] at h
+  | cons op rest ih =>
+    intro s' h
+    simp only [runTrace] at h
+    cases hst : step s op with
+    | none => simp [hst] at h
+    | some s1 =>
+      simp only [hst, List.mem_cons] at h
+      have i1 := step_sessInv hst hi
+      rcases h with h | h
+      · rw [h]; exact i1
+      · exact ih s1 i1 s' h
+
+theorem sessIdx_all_histories (ops : List Op) (s : State) (hc : CountInv s) (hi : SessIdx s) :
+    ∀ s' ∈ runTrace s ops, SessIdx s' :=
+  fun s' h => (sessInv_all_histories ops s ⟨hc.sessKeyed, hi⟩ s' h).2
+
+theorem sessIdx_from_genesis (g : Genesis) (ops : List Op) : ∀ s' ∈ runTrace g.state ops, SessIdx s' :=
+  fun s' h => (sessInv_all_histories ops g.state (genesis_sessInv g) s' h).2
+
+/-! ### consequences for C09 -/
+
+/-- An id without a session record occurs in no queue or index entry. -/
+theorem SessIdx.absent {s : State} (hi : SessIdx s) {i : Nat} (h0 : s.sessions.get i = none) :
+    (∀ t, s.sessQ.has (t, i) = false) ∧ (∀ a, s.sessForAcc.has (a, i) = false) ∧
+    (∀ a, s.sessForNode.has (a, i) = false) ∧ (∀ u, s.sessForSub.has (u, i) = false) ∧
+    (∀ u a, s.sessForAlloc.has (u, a, i) = false) := by
+  refine ⟨?_, ?_, ?_, ?_, ?_⟩
+  · intro t; rw [← Bool.not_eq_true, hi.q]; simp [h0]
+  · intro t; rw [← Bool.not_eq_true, hi.acc]; simp [h0]
+  · intro t; rw [← Bool.not_eq_true, hi.node]; simp [h0]
+  · intro t; rw [← Bool.not_eq_true, hi.sub]; simp [h0]
+  · intro u a; rw [← Bool.not_eq_true, hi.alloc]; simp [h0]
+
+/-- Listing the sessions of an account through the by-account index: no duplicates, and exactly the
+ids of the sessions whose `addr` is `a`. -/
+theorem session_listing_by_account {s : State} (hi : SessIdx s) (a : Addr) :
+    ((s.sessForAcc.keys.filter (·.1 = a)).map (·.2)).Nodup ∧
+    ∀ i, i ∈ (s.sessForAcc.keys.filter (·.1 = a)).map (·.2) ↔ ∃ x, s.sessions.get i = some x ∧ x.addr = a := by
+  obtain ⟨h1, h2⟩ := Tbl.listing₂ hi.nodup.2.2.1 a
+  exact ⟨h1, fun i => (h2 i).trans (hi.acc a i)⟩
+
+theorem session_listing_by_node {s : State} (hi : SessIdx s) (n : Addr) :
+    ((s.sessForNode.keys.filter (·.1 = n)).map (·.2)).Nodup ∧
+    ∀ i, i ∈ (s.sessForNode.keys.filter (·.1 = n)).map (·.2) ↔ ∃ x, s.sessions.get i = some x ∧ x.node = n := by
+  obtain ⟨h1, h2⟩ := Tbl.listing₂ hi.nodup.2.2.2.1 n
+  exact ⟨h1, fun i => (h2 i).trans (hi.node n i)⟩
+
+theorem session_listing_by_subscription {s : State} (hi : SessIdx s) (u : Nat) :
+    ((s.sessForSub.keys.filter (·.1 = u)).map (·.2)).Nodup ∧
+    ∀ i, i ∈ (s.sessForSub.keys.filter (·.1 = u)).map (·.2) ↔ ∃ x, s.sessions.get i = some x ∧ x.sub = u := by
+  obtain ⟨h1, h2⟩ := Tbl.listing₂ hi.nodup.2.2.2.2.1 u
+  exact ⟨h1, fun i => (h2 i).trans (hi.sub u i)⟩
+
+theorem session_listing_by_allocation {s : State} (hi : SessIdx s) (u : Nat) (a : Addr) :
+    ((s.sessForAlloc.keys.filter (fun k => k.1 = u ∧ k.2.1 = a)).map (·.2.2)).Nodup ∧
+    ∀ i, i ∈ (s.sessForAlloc.keys.filter (fun k => k.1 = u ∧ k.2.1 = a)).map (·.2.2) ↔
+      ∃ x, s.sessions.get i = some x ∧ x.sub = u ∧ x.addr = a := by
+  obtain ⟨h1, h2⟩ := Tbl.listing₃ hi.nodup.2.2.2.2.2 u a
+  exact ⟨h1, fun i => (h2 i).trans (hi.alloc u a i)⟩
+
+/-- The iteration the pending hook really performs (`IterateSessionsForSubscription`, sorted and
+reversed): each session of the subscription exactly once, and nothing else. -/
+theorem sessionIdsForSub_spec {s : State} (hi : SessIdx s) (u : Nat) :
+    (sessionIdsForSub s u).Nodup ∧ ∀ i, i ∈ sessionIdsForSub s u ↔ ∃ x, s.sessions.get i = some x ∧ x.sub = u := by
+  obtain ⟨h1, h2⟩ := session_listing_by_subscription hi u
+  unfold sessionIdsForSub
+  refine ⟨?_, ?_⟩
+  · rw [List.nodup_reverse]; exact (List.mergeSort_perm _ _).nodup_iff.mpr h1
+  · intro i; rw [List.mem_reverse, List.mem_mergeSort]; exact h2 i
+
+/-- Every entry of the session deadline queue points at an existing session (with that deadline). -/
+theorem queue_targets_live {s : State} (hi : SessIdx s) :
+    ∀ k ∈ s.sessQ.keys, ∃ x, s.sessions.get k.2 = some x ∧ x.inactiveAt = k.1 := by
+  intro k hk
+  exact (hi.q k.1 k.2).mp ((Tbl.mem_keys_iff_has _ _).mp hk)
+
+theorem queue_targets_live' {s : State} (hi : SessIdx s) (t : Time) (i : Nat) (h : s.sessQ.has (t, i) = true) :
+    s.sessions.has i = true := by
+  obtain ⟨x, hx, _⟩ := (hi.q t i).mp h
+  exact (Tbl.has_iff _ _).mpr ⟨x, hx⟩
+
+/-- …hence the session pass of `EndBlock` never hits its "does not exist" panic on a due key. -/
+theorem dueIds_live {s : State} (hi : SessIdx s) (enc : Time → Nat → Bytes) (t : Time) :
+    ∀ k ∈ dueIds enc s.sessQ t, ∃ x, s.sessions.get k.2 = some x ∧ x.inactiveAt = k.1 := by
+  intro k hk
+  unfold dueIds sortKeys at hk
+  rw [List.mem_mergeSort] at hk
+  exact queue_targets_live hi k (List.mem_filter.mp hk).1
+
+/-- What `sessionStep` removes (dequeue, then `removeSession`): afterwards no table has an entry
+for the session's id. -/
+theorem removed_session_disappears {s : State} {i : Nat} {item : Session} (hx : s.sessions.get i = some item)
+    (hc : CountInv s) (hi : SessIdx s) :
+    let s' := removeSession { s with sessQ := s.sessQ.erase (item.inactiveAt, item.id) } item
+    s'.sessions.get item.id = none ∧ (∀ t, s'.sessQ.has (t, item.id) = false) ∧
+    (∀ a, s'.sessForAcc.has (a, item.id) = false) ∧ (∀ a, s'.sessForNode.has (a, item.id) = false) ∧
+    (∀ u, s'.sessForSub.has (u, item.id) = false) ∧ (∀ u a, s'.sessForAlloc.has (u, a, item.id) = false) := by
+  intro s'
+  have h0 : s'.sessions.get item.id = none := by simp [s', removeSession, emit]
+  exact ⟨h0, (removeSession_sessIdx hx hc hi).absent h0⟩
+
+/-- `removeSession` alone (without the dequeue its caller does first) clears the record and the four
+indices, and leaves exactly the one queue entry of the removed session. -/
+theorem removeSession_alone {s : State} {i : Nat} {item : Session} (hx : s.sessions.get i = some item)
+    (hc : CountInv s) (hi : SessIdx s) :
+    let s' := removeSession s item
+    s'.sessions.get item.id = none ∧ (∀ t, s'.sessQ.has (t, item.id) = true ↔ t = item.inactiveAt) ∧
+    (∀ a, s'.sessForAcc.has (a, item.id) = false) ∧ (∀ a, s'.sessForNode.has (a, item.id) = false) ∧
+    (∀ u, s'.sessForSub.has (u, item.id) = false) ∧ (∀ u a, s'.sessForAlloc.has (u, a, item.id) = false) := by
+  intro s'
+  have hid := (hc.sessions i item hx).1
+  subst hid
+  obtain ⟨_, _, h3, h4, h5, h6⟩ := removed_session_disappears hx hc hi
+  refine ⟨by simp [s', removeSession, emit], ?_, h3, h4, h5, h6⟩
+  intro t
+  show s.sessQ.has (t, item.id) = true ↔ _
+  rw [hi.q, hx]
+  simp [eq_comm]
+
+/-- The removal branch of the session pass, end to end. -/
+theorem sessionStep_removes {s s' : State} {k : Time × Nat} {item : Session} (h : sessionStep s k = .ok s')
+    (hx : s.sessions.get k.2 = some item) (hst : item.status ≠ .StatusActive) (hc : CountInv s) (hi : SessIdx s) :
+    s'.sessions.get k.2 = none ∧ (∀ t, s'.sessQ.has (t, k.2) = false) ∧
+    (∀ a, s'.sessForAcc.has (a, k.2) = false) ∧ (∀ a, s'.sessForNode.has (a, k.2) = false) ∧
+    (∀ u, s'.sessForSub.has (u, k.2) = false) ∧ (∀ u a, s'.sessForAlloc.has (u, a, k.2) = false) := by
+  have hi' := sessionStep_sessIdx h hc hi
+  have hid := (hc.sessions k.2 item hx).1
+  unfold sessionStep at h
+  simp only [bind_eq_ok, orPanic_eq_ok] at h
+  obtain ⟨item', hx', h⟩ := h
+  rw [hx] at hx'
+  simp only [Option.some.injEq] at hx'
+  subst hx'
+  simp only [hst, if_false, bind_eq_ok, pure_eq_ok, panicIfErr_eq_ok] at h
+  obtain ⟨bytes, _, s2, h2, rfl⟩ := h
+  have h0 : (removeSession s2 item).sessions.get k.2 = none := by
+    rw [← hid]; simp [removeSession, emit]
+  exact ⟨h0, hi'.absent h0⟩
+
+/-! ### non-vacuity: a concrete state with a live session satisfies both hypotheses of `step_sessIdx` -/
+
+def sampleSession : Session :=
+  { id := 1, sub := 1, node := [7], addr := [9], up := 0, down := 0, dur := 0, inactiveAt := 100,
+    status := .StatusActive, statusAt := 0 }
+
+def sampleBase : State := { subCount := some 1, sessCount := some 0 }
+
+def sampleState : State := insertSession sampleBase sampleSession
+
+theorem sampleBase_sessInv : SessInv sampleBase := by
+  refine ⟨?_, ?_, ?_, ?_, ?_, ?_, ?_⟩
+  · intro i x h; simp [sampleBase] at h
+  · intro t i; simp [sampleBase, Tbl.has]
+  · intro t i; simp [sampleBase, Tbl.has]
+  · intro t i; simp [sampleBase, Tbl.has]
+  · intro t i; simp [sampleBase, Tbl.has]
+  · intro u a i; simp [sampleBase, Tbl.has]
+  · exact ⟨Tbl.nodup_nil, Tbl.nodup_nil, Tbl.nodup_nil, Tbl.nodup_nil, Tbl.nodup_nil, Tbl.nodup_nil⟩
+
+example : CountInv sampleState ∧ SessIdx sampleState := by
+  refine ⟨⟨?_, ?_, ?_, ?_, ?_, ⟨?_, ?_⟩, ⟨?_, ?_, ?_, ?_, ?_, ?_, ?_, ?_⟩, ⟨?_, ?_, ?_, ?_, ?_⟩⟩,
+    (insertSession_sessInv (s := sampleBase) (x := sampleSession) rfl sampleBase_sessInv).2⟩
+  all_goals
+    intros
+    simp_all [sampleState, sampleBase, sampleSession, insertSession, Tbl.set, Tbl.get_cons, Tbl.has]
+  · rename_i i x h; obtain ⟨rfl, rfl⟩ := h; simp
+  · omega
+  · omega
 
 end Hub.Model
